@@ -258,6 +258,11 @@ def main():
         run.under_contract(getattr(L, name))
         run.add("operators.potential.laplace.%s::descriptor" % name, "post", ob_factory, name)
     run.add("PotentialAssembler.evaluate::complex-split", "bounded", ob_complex_split)
+    # "spaces assembled from segment-wise pieces": which elements a piece covers (space._process_segments) - deductive block contract, for every grid size and
+    # every list of domain ids as a set (the native link for list order / repetitions is an obligation of C03)
+    from vlib import vrun as VR
+
+    VR.add_block(run, "contracts.dofmap_blocks", "_process_segments_block")
     run.add("representation.octa(refined 2)", "bounded", ob_representation, "octa", 2)
     run.add("representation.octa(refined 2): every regular order 8..20", "bounded", ob_order_sweep, "octa", 2)
     run.add("representation.octa(refined 2): point batches of size 1..5", "bounded", ob_point_batches)
